@@ -18,7 +18,7 @@ STUBS = ["store-level bind: prefixes and namespaces are opaque constant-hash tok
 ASSUMPTIONS = ["store-level bind with override=False is only exercised under the calling discipline of NamespaceManager.bind (prefix unbound "
                "or bound to that namespace, namespace unbound)",
                "split_uri / is_ncname: alphabet aB1_-./# (full Unicode category scans do not conclude; %, ( and ) are accepted in local names by design and excluded)",
-               "NamespaceManager-level histories use a concrete pool of 2 prefixes x 3 nested/overlapping namespaces; only the choice of "
+               "NamespaceManager-level histories use a concrete pool of 2 prefixes x 4 nested/overlapping namespaces; only the choice of "
                "pool element and the override/replace flags are symbolic (shape-symbolic: enumeration by the solver, supplement only)",
                "outside: prefixes minted while parsing / serialising documents"]
 
@@ -206,7 +206,7 @@ def body_ncname(desc, F, s):
 
 
 PREFIXES = ["", "a"]
-NSS = ["http://x/", "http://x/y#", "http://x/y/"]
+NSS = ["http://x/", "http://x/y#", "http://x/y/", "http://x/y/i-"]   # nested, overlapping, ending in / # or neither
 LOCALS = ["n", "y"]
 
 
@@ -252,6 +252,12 @@ def body_manager(desc, F, *args):
                     q = nm.curie(iri, generate=False)
                 elif step == "compute":
                     q = ":".join(x for x in nm.compute_qname(iri, generate=False)[::2])
+                elif step == "n3":
+                    q = nm.normalizeUri(iri)       # what URIRef.n3(namespace_manager) returns
+                    if q.startswith("<"):
+                        if q != "<%s>" % iri:
+                            return "n3() writes a different IRI"
+                        continue
                 else:
                     raise AssertionError(step)
             except (KeyError, ValueError):
@@ -294,7 +300,7 @@ def obligations(tier, seed):
     obs.append(dict(oid="is_ncname/len<=%d" % m, family="ncname", desc={}, sig=[("s", "s")], pre=["len(s) <= %d" % m], budget=600 if tier == "quick" else 3000))
     # manager-level, shape-symbolic
     seqs = [["bind", "qname"], ["bind", "bind", "qname"], ["bind", "qname", "bind", "again"], ["bind", "curie", "bind", "again"],
-            ["bind", "compute", "bind", "again"], ["bind", "bind"]]
+            ["bind", "compute", "bind", "again"], ["bind", "bind"], ["bind", "bind", "n3"], ["bind", "n3", "bind", "again"]]
     if tier == "thorough":
         seqs += [["bind", "bind", "bind"], ["bind", "qname", "bind", "bind", "again"]]
     for steps in seqs:
@@ -322,7 +328,7 @@ def bounds(tier):
             "trie": "insert_trie + get_longest_namespace on symbolic strings over {a,b,/,#}: <=2 namespaces of length<=3 and an IRI of "
                     "length<=4%s" % ("" if tier == "quick" else "; 3 namespaces of length<=2, IRI<=3"),
             "split / ncname": "split_uri and is_ncname on every string of length <= %d over aB1_-./#" % (3 if tier == "quick" else 4),
-            "manager": "shape-symbolic: NamespaceManager.bind (override/replace flags symbolic, 2 prefixes x 3 namespaces by symbolic index) "
+            "manager": "shape-symbolic: NamespaceManager.bind (override/replace flags symbolic, 2 prefixes x 4 namespaces by symbolic index) "
                        "interleaved with qname / curie / compute_qname on pool IRIs",
             "outside": "prefixes minted by parsers/serializers, other scripts than the stated alphabet, longer histories"}
 
